@@ -108,13 +108,15 @@ def reordered(rho: dict, k: int) -> dict:
     return {name: rho[name] for name in keys}
 
 
-def from_table(pvt_props, kr_props, rho, phi, sw, p_i):
+def from_table(pvt_props, kr_props, rho, phi, sw, p_i, rho_dict=None):
+    """rho_dict: the caller's own dictionary object, handed over as it is (a caller that keeps and re-uses it)."""
     from bluebonnet.flow.flowproperties import FlowPropertiesTwoPhase  # noqa: PLC0415
 
     with warnings.catch_warnings(), np.errstate(all="ignore"):
         warnings.simplefilter("ignore")
         try:
-            return FlowPropertiesTwoPhase.from_table(pvt_props, kr_props, reordered(rho, int(phi * 1e6 + p_i)), phi, sw, p_i)
+            dens = rho_dict if rho_dict is not None else reordered(rho, int(phi * 1e6 + p_i))
+            return FlowPropertiesTwoPhase.from_table(pvt_props, kr_props, dens, phi, sw, p_i)
         except Exception as e:  # noqa: BLE001
             raise CodeError(f"from_table(p_i={p_i}) raised {type(e).__name__}: {e}") from e
 
